@@ -81,9 +81,17 @@ type RPCObs struct {
 	Sizes      []int         `json:"sizes"` // sizes of the messages the application sends, in order
 
 	// live application send state (under harness.mu)
-	started, completed     int
+	started, completed      int
 	closeStarted, closeDone bool
-	recvDone               bool
+	recvDone                bool
+	mainInOp                bool        // two-goroutine calls: the sender is inside SendMsg/CloseSend
+	pending                 []pendingAct // server actions deferred until that op has returned
+	twoG                    bool
+}
+
+type pendingAct struct {
+	a    *AttObs
+	peer *wire.Peer
 }
 
 // Obs is the observation of a scenario.
@@ -182,7 +190,7 @@ func (h *harness) onFrame(conn int, peer *wire.Peer, e wire.Entry) {
 			a.EndStream = true
 		}
 		if a.Plan.Trig == "headers" {
-			act = h.execLocked(rid, a, peer)
+			act = h.triggerLocked(rid, r, a, peer)
 		}
 		h.bcastLocked()
 	case http2.FrameData:
@@ -238,11 +246,11 @@ func (h *harness) onFrame(conn int, peer *wire.Peer, e wire.Entry) {
 			switch a.Plan.Trig {
 			case "msgs":
 				if a.Msgs >= a.Plan.K {
-					act = h.execLocked(rid, a, peer)
+					act = h.triggerLocked(rid, r, a, peer)
 				}
 			case "end":
 				if a.EndStream {
-					act = h.execLocked(rid, a, peer)
+					act = h.triggerLocked(rid, r, a, peer)
 				}
 			}
 		}
@@ -258,6 +266,24 @@ func (h *harness) onFrame(conn int, peer *wire.Peer, e wire.Entry) {
 	if act != nil {
 		act()
 	}
+}
+
+// triggerLocked executes the attempt's action now, or defers it.  In a
+// two-goroutine call the receiver goroutine sits in RecvMsg; if the server
+// failed the attempt while the sender is still inside the SendMsg whose message
+// triggered the action, the receiver could take clientStream.mu and sleep in
+// the retry backoff before that SendMsg re-acquires the mutex for its
+// bookkeeping.  A goroutine blocked on a sync.Mutex is not durably blocked for
+// synctest, so virtual time would never advance (a harness hang, not a grpc
+// defect).  The action is therefore executed right after the op has returned,
+// at the same virtual instant.
+func (h *harness) triggerLocked(rid int, r *RPCObs, a *AttObs, peer *wire.Peer) func() {
+	if r.mainInOp {
+		a.ActionSeq = -1 // reserved: no second trigger
+		r.pending = append(r.pending, pendingAct{a, peer})
+		return nil
+	}
+	return h.execLocked(rid, a, peer)
 }
 
 // execLocked stamps the action and returns the function that writes it.
@@ -309,7 +335,7 @@ func Run(sc *Scenario) *Obs {
 	h := &harness{t0: time.Now(), sc: sc, byStream: map[streamKey]*attRef{}, changed: make(chan struct{}),
 		obs: &Obs{Counters: map[string]int64{}}}
 	for i := range sc.RPCs {
-		r := &RPCObs{}
+		r := &RPCObs{twoG: sc.RPCs[i].TwoG}
 		if sc.RPCs[i].Shape == "unary" {
 			r.Sizes = []int{sc.RPCs[i].UnarySize}
 		}
@@ -392,6 +418,9 @@ func (h *harness) opStart(r *RPCObs, k string, idx, g int) *OpRec {
 	defer h.mu.Unlock()
 	op := &OpRec{K: k, Idx: idx, G: g, StartSeq: h.nextSeqLocked(), StartAt: h.now()}
 	r.Ops = append(r.Ops, op)
+	if g == 0 && r.twoG && (k == "S" || k == "C") {
+		r.mainInOp = true
+	}
 	switch k {
 	case "S", "I":
 		r.started++
@@ -404,9 +433,8 @@ func (h *harness) opStart(r *RPCObs, k string, idx, g int) *OpRec {
 	return op
 }
 
-func (h *harness) opEnd(r *RPCObs, op *OpRec, err error) {
+func (h *harness) opEnd(rid int, r *RPCObs, op *OpRec, err error) {
 	h.mu.Lock()
-	defer h.mu.Unlock()
 	op.EndSeq, op.EndAt = h.nextSeqLocked(), h.now()
 	if err != nil {
 		op.Err = err.Error()
@@ -420,13 +448,30 @@ func (h *harness) opEnd(r *RPCObs, op *OpRec, err error) {
 	case "C":
 		r.closeDone = true
 	}
+	var acts []func()
+	if op.G == 0 && r.mainInOp {
+		r.mainInOp = false
+		for _, p := range r.pending {
+			p.a.ActionSeq = 0
+			acts = append(acts, h.execLocked(rid, p.a, p.peer))
+		}
+		r.pending = nil
+		if len(acts) > 0 {
+			h.obs.Counters["server_actions_deferred_past_send_op"] += int64(len(acts))
+			h.bcastLocked()
+		}
+	}
+	h.mu.Unlock()
+	for _, f := range acts {
+		f()
+	}
 }
 
-func (h *harness) finish(r *RPCObs, err error) {
+func (h *harness) finish(r *RPCObs, err error, eofIsOK bool) {
 	h.mu.Lock()
 	defer h.mu.Unlock()
 	r.Finished, r.FinishAt = true, h.now()
-	if err == nil || err == io.EOF {
+	if err == nil || err == io.EOF && eofIsOK {
 		r.FinalCode = codes.OK
 	} else {
 		r.FinalCode = status.Code(err)
@@ -513,19 +558,19 @@ func (h *harness) runRPC(cc *grpc.ClientConn, rid int) {
 		op := h.opStart(r, "I", 0, 0)
 		var resp []byte
 		err := cc.Invoke(ctx, method, ReqPayload(rid, 0, rp.UnarySize), &resp, copts...)
-		h.opEnd(r, op, err)
+		h.opEnd(rid, r, op, err)
 		if err == nil {
 			h.recordRecv(rid, r, resp)
 		}
-		h.finish(r, err)
+		h.finish(r, err, false)
 		return
 	}
 	desc := &grpc.StreamDesc{ClientStreams: true, ServerStreams: rp.Shape == "bidi"}
 	op := h.opStart(r, "N", 0, 0)
 	st, err := cc.NewStream(ctx, desc, method, copts...)
-	h.opEnd(r, op, err)
+	h.opEnd(rid, r, op, err)
 	if err != nil {
-		h.finish(r, err)
+		h.finish(r, err, false)
 		return
 	}
 	recvLoop := func(g int) error {
@@ -533,7 +578,7 @@ func (h *harness) runRPC(cc *grpc.ClientConn, rid int) {
 			op := h.opStart(r, "R", 0, g)
 			var m []byte
 			err := st.RecvMsg(&m)
-			h.opEnd(r, op, err)
+			h.opEnd(rid, r, op, err)
 			if err != nil {
 				return err
 			}
@@ -570,7 +615,7 @@ func (h *harness) runRPC(cc *grpc.ClientConn, rid int) {
 		case "S":
 			op := h.opStart(r, "S", sendIdx, 0)
 			err := st.SendMsg(ReqPayload(rid, sendIdx, o.N))
-			h.opEnd(r, op, err)
+			h.opEnd(rid, r, op, err)
 			sendIdx++
 			if err != nil {
 				stopSending = true
@@ -578,7 +623,7 @@ func (h *harness) runRPC(cc *grpc.ClientConn, rid int) {
 		case "C":
 			op := h.opStart(r, "C", 0, 0)
 			err := st.CloseSend()
-			h.opEnd(r, op, err)
+			h.opEnd(rid, r, op, err)
 		}
 		if stopSending {
 			break
@@ -593,5 +638,5 @@ func (h *harness) runRPC(cc *grpc.ClientConn, rid int) {
 		h.quiescentCheck(rid, r, "last op")
 		recvErr = recvLoop(0)
 	}
-	h.finish(r, recvErr)
+	h.finish(r, recvErr, true)
 }
